@@ -109,7 +109,24 @@ pub fn judge(call: usize, x: [f64; 2], l: Option<&mut Local>) -> Verdict {
     }
 }
 
+pub fn hist_judge(c: &crate::hist::HCall, l: Option<&mut Local>) -> Verdict {
+    use crate::api::Op;
+    let k = match c.as_op() {
+        Some(Op::sinh) => 0,
+        Some(Op::cosh) => 1,
+        Some(Op::tanh) => 2,
+        Some(Op::asinh) => 3,
+        Some(Op::acosh) => 4,
+        Some(Op::atanh) => 5,
+        _ => return Verdict::Skip,
+    };
+    judge(k, c.a, l)
+}
+
 pub fn replay(call: &str, _clause: &str, args: &[u64]) -> Verdict {
+    if call == "hist" {
+        return crate::hist::replay(args, &hist_judge);
+    }
     let ci = CALLS.iter().position(|c| *c == call).expect("unknown call");
     judge(ci, [f64::from_bits(args[0]), f64::from_bits(args[1])], None)
 }
@@ -262,5 +279,12 @@ pub fn run(r: &mut Runner) {
                 }
             }
         });
+    }
+    {
+        use crate::api::Op;
+        let mut groups = crate::hist::unary_groups(&[Op::sinh, Op::cosh], &[[1.25, 1e-17], [-3.5, 2e-16], [0.01, 0.0], [50.25, -1e-15]], [2.0, 0.0]);
+        groups.extend(crate::hist::unary_groups(&[Op::tanh, Op::asinh], &[[0.75, 1e-17], [-20.0, 0.0]], [2.0, 0.0]));
+        groups.extend(crate::hist::unary_groups(&[Op::acosh, Op::atanh], &[[1.5, 1e-17], [0.5, -1e-18]], [0.25, 0.0]));
+        crate::hist::explore(r, "histories: hyperbolic functions", &groups, 3, &hist_judge, 14u64 << 55);
     }
 }
